@@ -6,6 +6,19 @@ namespace Req
 
 open Wire
 
+/-- domain rules: `kind,hex,excl` joined by `;` (kind e/s/p/c/a) -/
+def decodeDomRules (s : String) : Option (List DomRule) :=
+  (splitList2 s).mapM fun e =>
+    match splitList e with
+    | [k, lit, ex] => do
+      let l ← bytesOfHex lit
+      let x ← boolOf ex
+      let pat ← match k with
+        | "e" => some (DomPat.exact l) | "s" => some (DomPat.suffix l) | "p" => some (DomPat.pfx l)
+        | "c" => some (DomPat.contains l) | "a" => some DomPat.all | _ => none
+      some { pat := pat, exclude := x }
+    | _ => none
+
 def decodeCfg (t : List String) : Option Cfg := do
   let tag ← bytesOfHex (kvD t "tag" "_")
   let name ← bytesOfHex (kvD t "name" "_")
@@ -26,12 +39,19 @@ def decodeCfg (t : List String) : Option Cfg := do
   let site ← optBytes (kvD t "sitecred" "~")
   let up ← match kvD t "upstream" "none" with
     | "none" => some Upstream.none
+    | "failed" => some Upstream.failed
     | s => match splitList s with
       | ["http", hp, a] => do some (Upstream.http (← bytesOfHex hp) (← optBytes a))
+      | ["https", hp, a] => do some (Upstream.https (← bytesOfHex hp) (← optBytes a))
+      | ["socks5", hp, "~"] => do some (Upstream.socks5 (← bytesOfHex hp) none)
+      | ["socks5", hp, u, pw] => do some (Upstream.socks5 (← bytesOfHex hp) (some ((← bytesOfHex u), (← bytesOfHex pw))))
+      | ["other", sc, hp, a] => do some (Upstream.other (← bytesOfHex sc) (← bytesOfHex hp) (← optBytes a))
       | _ => none
+  let drules ← decodeDomRules (kvD t "denyrules" "~")
+  let mitm ← boolOf (kvD t "mitm" "0")
   some { tag := tag, name := name, basicAuth := ba, timeAllowed := timeAllowed, denyLocalhost := denyLocal,
          localhostNames := lnames, denyExact := deny, rules := rules, connectRules := crules,
-         siteCred := site, upstream := up }
+         siteCred := site, upstream := up, denyRules := drules, mitm := mitm }
 
 def decodeCtx (t : List String) : Option Ctx := do
   let ip ← bytesOfHex (kvD t "ip" "_")
@@ -68,14 +88,74 @@ def encodeOutcome : Outcome → String
   | .refused st why => s!"refused {st} {whyName why}"
   | .badRequest => "badreq"
   | .unreadable => "unreadable"
+  | .routeError => "routeerr"
   | .forwarded hop out =>
-    let (k, a) := match hop with | .direct a => ("direct", a) | .proxy a => ("proxy", a)
+    let (k, a) := match hop with
+      | .direct a => ("direct", a) | .proxy a => ("proxy", a) | .tlsProxy a => ("tlsproxy", a)
+      | .socks a => ("socks", a) | .otherProxy _ a => ("otherproxy", a)
     s!"fwd {k} {hexOfBytes a} {hexOfBytes out.method} {hexOfBytes out.target} {out.framing} {encodeFieldMap out.fields}"
+
+def viaName : Via → String
+  | .direct => "direct" | .http => "http" | .https => "https" | .socks5 => "socks5"
+
+def encodeSent (s : Sent) : String :=
+  let recv := match s.recv with | .origin => "origin" | .proxy => "proxy"
+  s!"S {recv} {ofBool s.setup} {hexOfBytes s.msg.method} {hexOfBytes s.msg.target} {encodeFieldMap s.msg.fields}"
+
+def encodeAction (a : Action) : String :=
+  let st := match a.socksTarget with | some t => hexOfBytes t | none => "~"
+  let sa := match a.socksAuth with | some (u, p) => joinList [hexOfBytes u, hexOfBytes p] | none => "~"
+  " ".intercalate ([s!"A {viaName a.via} {hexOfBytes a.hopAddr} {st} {sa} {a.sent.length}"] ++ a.sent.map encodeSent)
+
+/-- `actions <n> A … S … S … A …` -/
+def encodeActions (as : List Action) : String :=
+  " ".intercalate ([s!"actions {as.length}"] ++ as.map encodeAction)
+
+def encodeConnectOutcome : ConnectOutcome → String
+  | .refused st why => s!"refused {st} {whyName why}"
+  | .badRequest => "badreq"
+  | .unreadable => "unreadable"
+  | .mitm => "mitm"
+  | .routeError => "routeerr"
+  | .tunnel _ => "tunnel"
+
+def decodeConnect (t : List String) : Option ConnectReq := do
+  let au ← bytesOfHex (kvD t "authority" "_")
+  let minor ← natOf (kvD t "minor" "1")
+  let fs ← decodeFields (kvD t "fields" "~")
+  some { authority := au, minor := minor, fields := fs }
+
+/-- the refusal's header fields as built and as received by the client -/
+def encodeErrorHeaders (cfg : Cfg) (why : Refusal) : String :=
+  s!"built={encodeFieldMap (lowerFields (errorHeadersBuilt cfg why))} recv={encodeFieldMap (lowerFields (errorHeadersReceived cfg why))}"
+
+/-- `<outcome> # <actions> [# <error headers>]` for a non-CONNECT request -/
+def answerRequest (cfg : Cfg) (ctx : Ctx) (r : Request) : String :=
+  let o := processRequest cfg ctx r
+  let base := s!"{encodeOutcome o} # {encodeActions (requestActions cfg ctx r)}"
+  match o with
+  | .refused _ why => s!"{base} # {encodeErrorHeaders cfg why}"
+  | _ => base
+
+def answerConnect (cfg : Cfg) (ctx : Ctx) (c : ConnectReq) : String :=
+  let o := processConnect cfg ctx c
+  let base := s!"{encodeConnectOutcome o} # {encodeActions (connectActions cfg ctx c)}"
+  match o with
+  | .refused _ why => s!"{base} # {encodeErrorHeaders cfg why}"
+  | _ => base
 
 def handle : List String → String
   | "process" :: toks =>
     match decodeCfg toks, decodeCtx toks, decodeReq toks with
     | some cfg, some ctx, some r => encodeOutcome (processRequest cfg ctx r)
+    | _, _, _ => "bad-op"
+  | "request" :: toks =>
+    match decodeCfg toks, decodeCtx toks, decodeReq toks with
+    | some cfg, some ctx, some r => answerRequest cfg ctx r
+    | _, _, _ => "bad-op"
+  | "connect" :: toks =>
+    match decodeCfg toks, decodeCtx toks, decodeConnect toks with
+    | some cfg, some ctx, some c => answerConnect cfg ctx c
     | _, _, _ => "bad-op"
   | ["basic", auth] =>
     match bytesOfHex auth with
